@@ -40,7 +40,9 @@ func (g *c11Gen) factArg() string {
 		// proper lists that are prefixes of one another (setof/3 has to order them: shorter first)
 		"[1]", "[1,2,3]", "[1,2,3,4]", "[1,2,3,4,5,6]", "[a]", "[a,b,c,d]", "[[1],[1,2,3]]", "[1,2]", "[1,2,3,4,5,6]", "[1]",
 		// different ground terms that are written alike without quotes (witnesses must be compared as terms)
-		"'1'", "'2'", "'f(a)'", "'p-1'", "'[1,2]'", "'1'", "'g(_,_)'")
+		"'1'", "'2'", "'f(a)'", "'p-1'", "'[1,2]'", "'1'", "'g(_,_)'",
+		// integers that are more than 2^63 apart
+		"9223372036854775807", "-9223372036854775807", "-2", "f(9223372036854775807)", "f(-9223372036854775808)", "4611686018427387904", "-4611686018427387905")
 }
 
 func (g *c11Gen) facts() string {
@@ -84,7 +86,8 @@ func (g *c11Gen) simpleGoal() string {
 	case 5:
 		return fmt.Sprintf("t(%s, %s, %s)", g.v(), g.v(), g.v())
 	case 6:
-		return fmt.Sprintf("member(%s, [%s])", g.v(), g.pick("1,2,3", "a,b,a", "3,1,2,1", "f(A),f(B),f(A)", "Y,Z", "2", "[1,2,3,4],[1],[1,2],[1,2,3,4,5],[]", "[a,b,c],[a],[a,b,c,d,e]"))
+		return fmt.Sprintf("member(%s, [%s])", g.v(), g.pick("1,2,3", "a,b,a", "3,1,2,1", "f(A),f(B),f(A)", "Y,Z", "2", "[1,2,3,4],[1],[1,2],[1,2,3,4,5],[]", "[a,b,c],[a],[a,b,c,d,e]",
+			"A,A", "A,A,A", "f(A),f(A)", "9223372036854775807,-2,-9223372036854775808,0", "A,1,A"))
 	default:
 		return fmt.Sprintf("%s = %s", g.v(), g.pick("1", "a", "f(Z)", "Y"))
 	}
